@@ -16,5 +16,5 @@ cd /verif
 if [ -n "$VERIF_CMD" ]; then VERIF_HARNESS=$S/harness bash -c "$VERIF_CMD"; else VERIF_HARNESS=$S/harness ./check "$2" "${3:-quick}"; fi
 rc=$?
 git -C $S/repo checkout -q -- .
-git -C /verif checkout -q -- evidence/ 2>/dev/null
+git -C /verif checkout -q -- "evidence/$2.json" 2>/dev/null
 exit $rc
